@@ -5,6 +5,22 @@ import json, os, subprocess
 ROOT = os.path.dirname(os.path.dirname(os.path.abspath(__file__)))
 
 CLAIMED = {
+ "C03": dict(
+   text="The traced program, the kernel's ptrace rules and the tracer as one system in Coq (Tracer/Enforce.v): any number of tasks, arbitrary "
+        "event streams (traced syscalls, fork / vfork / clone, exits, the tracer's waits in any order), an arbitrary decision function into "
+        "{allow, ban, kill}; the tracer's reaction is `handle` of Verdict/Status.v itself - the function compared with the code.  Theorem "
+        "C03_enforced (invariant by induction over the event stream): a traced syscall executes only if the decision was allow; a banned "
+        "one never executes and returns -BanRet; an allowed one has executed when the tracer waits again; a kill ends the run as "
+        "Disallowed Syscall with the syscall not executed and every task gone; every task ever created carries the options.  "
+        "C03_filter_kill from the verdict table.  Tie on every run: ~100 really traced trees of forked / vforked processes and threads "
+        "issuing marker syscalls with decisions by marker name, 160 kill-verdict runs under 16-way CPU contention, runs under a killing "
+        "filter; the program's own record of return values, the directories that exist afterwards, the verdict, and the tracer's own "
+        "event log (waits and ptrace requests, verif hook) replayed in Coq against `handle` for every run.",
+   note="Partial: the kernel's ptrace rules (a task in seccomp-stop does nothing until restarted; orig_rax = -1 skips; SIGKILL of a stopped task "
+        "discards its pending syscall; auto-attach with inherited options) are the model's assumptions, exercised on every run and not proved; "
+        "ESRCH races are C15's.  Trusted: Coq kernel + vm_compute.",
+   technique="Coq proof of an invariant over all event streams of the composed tracer / kernel / program system + replay of real tracer logs against the model's handle",
+   design="§5 C03"),
  "C02": dict(
    text="Path resolution as executable Gallina over arbitrary forests (functions from canonical paths to Dir | File | Link abs target): the "
         "kernel's walk (`kwalk` / `kres`: component by component, '..' applied to the directory reached, links expanded in place, 40-link "
